@@ -110,6 +110,28 @@ fn trait_ops(op: &str, a: &[&str]) -> Option<String> {
         "tr.Float.signum" => wr_tf(Float::signum(t1(0)?)),
         "tr.Float.recip" => wr_tf(Float::recip(t1(0)?)),
         "tr.Float.copysign" => wr_tf(Float::copysign(t1(0)?, t1(2)?)),
+        // ToPrimitive through the trait: a deleted override falls back to num_traits' provided body (to_i128 via to_i64, ...)
+        "tr.ToPrimitive.to_i8" => wr_optint(num_traits::ToPrimitive::to_i8(&t1(0)?)),
+        "tr.ToPrimitive.to_i16" => wr_optint(num_traits::ToPrimitive::to_i16(&t1(0)?)),
+        "tr.ToPrimitive.to_i32" => wr_optint(num_traits::ToPrimitive::to_i32(&t1(0)?)),
+        "tr.ToPrimitive.to_i64" => wr_optint(num_traits::ToPrimitive::to_i64(&t1(0)?)),
+        "tr.ToPrimitive.to_i128" => wr_optint(num_traits::ToPrimitive::to_i128(&t1(0)?)),
+        "tr.ToPrimitive.to_isize" => wr_optint(num_traits::ToPrimitive::to_isize(&t1(0)?)),
+        "tr.ToPrimitive.to_u8" => wr_optint(num_traits::ToPrimitive::to_u8(&t1(0)?)),
+        "tr.ToPrimitive.to_u16" => wr_optint(num_traits::ToPrimitive::to_u16(&t1(0)?)),
+        "tr.ToPrimitive.to_u32" => wr_optint(num_traits::ToPrimitive::to_u32(&t1(0)?)),
+        "tr.ToPrimitive.to_u64" => wr_optint(num_traits::ToPrimitive::to_u64(&t1(0)?)),
+        "tr.ToPrimitive.to_u128" => wr_optint(num_traits::ToPrimitive::to_u128(&t1(0)?)),
+        "tr.ToPrimitive.to_usize" => wr_optint(num_traits::ToPrimitive::to_usize(&t1(0)?)),
+        "tr.ToPrimitive.to_f64" => wr_optf64(num_traits::ToPrimitive::to_f64(&t1(0)?)),
+        "tr.ToPrimitive.to_f32" => wr_optf32(num_traits::ToPrimitive::to_f32(&t1(0)?)),
+        // the same for the integer-typed NumCast route out of TwoFloat: <iN as NumCast>::from(x) = x.to_iN()
+        "tr.NumCast.i64" => wr_optint(<i64 as num_traits::NumCast>::from(t1(0)?)),
+        "tr.NumCast.u64" => wr_optint(<u64 as num_traits::NumCast>::from(t1(0)?)),
+        "tr.NumCast.i128" => wr_optint(<i128 as num_traits::NumCast>::from(t1(0)?)),
+        "tr.NumCast.u128" => wr_optint(<u128 as num_traits::NumCast>::from(t1(0)?)),
+        "tr.NumCast.i32" => wr_optint(<i32 as num_traits::NumCast>::from(t1(0)?)),
+        "tr.NumCast.u8" => wr_optint(<u8 as num_traits::NumCast>::from(t1(0)?)),
         "tr.FloatConst.TAU" => wr_tf(<TwoFloat as num_traits::FloatConst>::TAU()),
         "tr.FloatConst.LOG10_2" => wr_tf(<TwoFloat as num_traits::FloatConst>::LOG10_2()),
         "tr.FloatConst.LOG2_10" => wr_tf(<TwoFloat as num_traits::FloatConst>::LOG2_10()),
